@@ -381,6 +381,12 @@ class Run:
     def do_sync(self, op):
         """Perform the synchronous part of an op; returns err string or None."""
         kind = op["op"]
+        # a completion of something that does not exist is not an operation of the pipeline: the schedule is invalid
+        # (only shortened or hand-edited schedules can contain one); reported as such, never executed half-way
+        if kind in ("sinkdone", "sinkfail") and op["tok"] not in self.pending:
+            return "invalid-op:%s:%r" % (kind, op["tok"])
+        if kind in ("jobdone", "jobfail") and op["job"] not in self.jobs:
+            return "invalid-op:%s:%r" % (kind, op["job"])
         try:
             if kind == "emit":
                 node = self.nodes[op["node"]]
